@@ -62,12 +62,15 @@ def _freq_classifier(d):
             return arrays._wrap(out, arrays.FLOAT)
     clf = StubFreq(classes=[0, 1])
     clf.classes_ = np.arange(2)
+    clf.class_prior_ = np.zeros((1, 2))     # (what ClassFrequencyEstimator._validate_data sets for class_prior=0)
     return clf
 
 
-def _make(d, B, seed, w=None):
+def _make(d, B, seed, w=None, metric=None):
     import skactiveml.stream as st
     from skactiveml.stream.budgetmanager import BalancedIncrementalQuantileFilter
+    if metric is not None:
+        return st.StreamProbabilisticAL(budget=B, random_state=seed, metric=metric, metric_dict={"gamma": 0.5})
     if w is None:
         return st.StreamProbabilisticAL(budget=B, random_state=seed)
     # a window smaller than the stream (eviction inside a chunk)
@@ -123,7 +126,7 @@ def sc_chunking(d, n, comp, w=None):
 
 
 # ---------------------------------------------------------------- C03: purity
-def sc_purity(d, sizes, w=None):
+def sc_purity(d, sizes, w=None, metric=None):
     from harness.C03 import scenario
 
     class Env:
@@ -137,14 +140,24 @@ def sc_purity(d, sizes, w=None):
     clf = _freq_classifier(d)
     chunks = _chunks(d, sizes)
 
+    # with a kernel metric the strategy estimates the frequencies itself from the training data handed to query: the same
+    # X array object every time, labels that depend on the chunk (the interposed extra queries see fewer labels)
+    Xtr = d.arr([[d.fl(f"t{i}", lo=-4.0, hi=4.0)] for i in range(2)], shape=(2, 1)) if metric else None
+    y_few, y_many = (d.arr([0.0, float("nan")]), d.arr([0.0, 1.0])) if metric else (None, None)
+
+    def kw(ch):
+        if not metric:
+            return {}
+        return dict(X=Xtr, y=(y_few if ch is chunks[-1] else y_many), fit_clf=False)
+
     def query(qs, ch):
-        idx, ut = qs.query(ch.copy(), clf, return_utilities=True)
+        idx, ut = qs.query(ch.copy(), clf, return_utilities=True, **kw(ch))
         return [int(i) for i in idx], ut
 
     def update(qs, ch, idx):
-        _, ut = qs.query(ch.copy(), clf, return_utilities=True)
+        _, ut = qs.query(ch.copy(), clf, return_utilities=True, **kw(ch))
         qs.update(ch.copy(), d.arr(idx, dtype=int), budget_manager_param_dict={"utilities": ut})
-    res = scenario(Env, lambda: _make(d, B, seed, w), query, update, chunks, update_only_twin=False)   # (its update needs the utilities of a query)
+    res = scenario(Env, lambda: _make(d, B, seed, w, metric), query, update, chunks, update_only_twin=False)   # (its update needs the utilities of a query)
     d.witness(any(len(r[0]) for r in res), "some_granted")
 
 
@@ -174,5 +187,6 @@ def harnesses_c10():
 def harnesses_c03():
     return [dual_harness("probabilistic_al_purity", sc_purity,
                          lambda tier: [dict(sizes=s, w=w) for w in (None, 2)
-                                       for s in ([[1, 1], [2, 1]] if tier == "quick" else [[1, 1], [2, 1], [1, 2], [2, 2]])],
+                                       for s in ([[1, 1], [2, 1]] if tier == "quick" else [[1, 1], [2, 1], [1, 2], [2, 2]])]
+                         + [dict(sizes=[1, 1], metric="rbf")],
                          UNITS, required_witnesses=("some_granted",), product_abstraction=True)]
